@@ -687,6 +687,16 @@ func (w *World) judgePathOp(op, what string, f pathFault, p string, err error, L
 		// both outcomes are legal, each is judged on its own terms
 		mustFail = false
 	}
+	if (f.kind == "devfull" || f.kind == "devnull") && err == nil {
+		// the fault lives behind a symbolic link at the path. An implementation
+		// that replaces whatever is at the path instead of writing through it never
+		// meets the device: then no write failed, and the success is judged by the
+		// completeness of the (regular) file like any other
+		if st, serr := os.Lstat(p); serr == nil && st.Mode()&os.ModeSymlink == 0 && st.Mode().IsRegular() {
+			mustFail = false
+			r.count("probe.io.symlink-replaced-not-followed")
+		}
+	}
 	if err != nil {
 		r.count("fault." + f.kind)
 		r.NonTrivial = true
